@@ -21,12 +21,18 @@ MAXPROC = int(os.environ.get("VERIF_JOBS", "16"))
 
 
 def load_findings(pid):
-    path = os.path.join(VERIF, "known_findings.json")
-    if not os.path.exists(path):
-        return []
-    with open(path) as f:
-        data = json.load(f)
-    return [e for e in data.get("findings", []) if e.get("property") == pid and e.get("status") == "open"]
+    out = []
+    paths = [os.path.join(VERIF, "known_findings.json")]
+    d = os.path.join(VERIF, "known_findings.d")
+    if os.path.isdir(d):
+        paths += sorted(os.path.join(d, fn) for fn in os.listdir(d) if fn.endswith(".json"))
+    for path in paths:
+        if not os.path.exists(path):
+            continue
+        with open(path) as f:
+            data = json.load(f)
+        out += [e for e in data.get("findings", []) if e.get("property") == pid and e.get("status") == "open"]
+    return out
 
 
 def harness_exe(run):
